@@ -54,10 +54,10 @@ def run(ctx, rep):
     # argc provenance is an O8 obligation
     for x in R['violations']:
         if x['oblig'] == 'O8' and ('Call' in x['text']):
-            rep.bad('R12.1', 'compiler::Compiler::' + x['method'], x['construct'], x['text'], 'src/compiler.rs')
+            rep.bad('R12.1', 'compiler::Compiler::' + x['method'], x['construct'], x['text'], 'src/compiler.rs', key=x['kc'])
     for x in R['violations']:
         if x['oblig'] == 'R12.1':
-            rep.bad('R12.1', 'compiler::Compiler::' + x['method'], x['construct'], x['text'], 'src/compiler.rs')
+            rep.bad('R12.1', 'compiler::Compiler::' + x['method'], x['construct'], x['text'], 'src/compiler.rs', key=x['kc'])
     # ---- VM side: Call arm ---------------------------------------------------------------------
     call = v['arms'].get('Call')
     if not call:
